@@ -11,20 +11,21 @@ QUICK_VARIANTS = ["plain", "hufx1", "hufx2"]
 ALL_VARIANTS = ["plain", "noasm", "hufx1", "hufx2", "san"]
 
 
-def correspondence(ctx):
+def frames_round(ctx, K):
+    """one K-th of the frame families: generated, decoded by every variant through every path, judged, dropped (bounded memory in the thorough tier)"""
     rng = ctx.rng
     plain = frames.harness("plain")
     variants = QUICK_VARIANTS if ctx.quick() else ALL_VARIANTS
     # (a) synthesized streams, filtered by R
-    cand = [synth.stream(rng) for _ in range(700 if ctx.quick() else 20000)]
+    cand = [synth.stream(rng) for _ in range(700 if ctx.quick() else max(1, 20000 // K))]
     # compressed blocks with FSE-described sequence tables (random distributions incl. 'less than one' probabilities); every 12th one
     # holds the most expensive sequence the format allows (> 2 MiB offset, > 32 KiB literal run, long match, full-cost state updates)
-    for i in range(180 if ctx.quick() else 5000):
+    for i in range(180 if ctx.quick() else max(1, 5000 // K)):
         r = synth.frame_ring(rng) if i % 12 == 6 else synth.frame_fse(rng, extreme=(i % 12 == 0))
         if r:
             cand.append(r)
     # Huffman literals in four streams at tiny sizes (fourth stream empty for 6 and 9 bytes), with and without a treeless second block
-    cand += synth.huf4_small_frames(rng, 80 if ctx.quick() else 1500)
+    cand += synth.huf4_small_frames(rng, 80 if ctx.quick() else max(1, 1500 // K))
     r = frames.parallel(lambda ch: frames.model_lines(ch), frames.split_chunks(["dec %d %s" % (len(c) + 8, frames.hx(f)) for f, c in cand], 16))
     # a synthesized frame is VALID only if it also obeys the window rule (a match may not reach further back than Window_Size once the block
     # ends beyond it): the one-shot decoders and R regenerate such a frame from their full history, a streaming decoder with the ring buffer
@@ -36,7 +37,7 @@ def correspondence(ctx):
     synth_disagree = [(f, c, rr) for (f, c), rr in zip(cand, r) if rr.startswith("ok") and int(rr.split()[1]) != len(c)]
     # (b) compressor frames (no dict)
     lines, xs = [], []
-    for i in range(120 if ctx.quick() else 3000):
+    for i in range(120 if ctx.quick() else max(1, 3000 // K)):
         kind, x = datagen.gen(rng, 200000 if i % 6 == 0 else 20000)
         p = frames.param_vector(rng, True, allow_fmt=False)
         if i % 8 == 3:
@@ -51,7 +52,7 @@ def correspondence(ctx):
     valid += [(f, rr) for f, rr in zip(cf, r2) if rr.startswith("ok")]
     # (c) dictionary frames: text-like data with few matches, > 64 KiB of literals in the first block (split literal buffer + cold DDict => prefetch decoder)
     dlines, dmeta = [], []
-    for i in range(24 if ctx.quick() else 400):
+    for i in range(24 if ctx.quick() else max(1, 400 // K)):
         d = datagen.text(rng, rng.choice([2000, 20000, 100000]))
         if i % 2 == 0:
             x = bytes(rng.choice(b"abcdefghijklmnopqrstuvwxyz ETAOIN.,;") for _ in range(rng.choice([70000, 131072, 200000])))
@@ -110,8 +111,26 @@ def correspondence(ctx):
                         ctx.violation("decoding path disagrees with the reference decoder on a valid frame: variant %s, %s, op %s -> %r, reference %r" % (v, desc[i], ops[i].split()[0], o[:80], want[i]),
                                       dict(kind="monitor", variant=v, op=ops[i][:400000], got=o, reference=want[i]))
         per_variant[v] = n_ok
-    for f, c, rr in synth_disagree[:2]:
-        ctx.notes.append("synthesizer's own simulation differs from R on a frame R accepts (generator imprecision, not a finding): %d vs %s" % (len(c), rr))
+    return dict(ev=ev, per_variant=per_variant, valid_big={bytes(f) for f, _ in valid if len(f) > 16}, sample=dict(op=ops[0][:80], reference=want[0]) if ops else None,
+                synth_valid=len([1 for (f, c), rr in zip(cand, r) if rr.startswith("ok")]), synth_total=len(cand), beyond=len(beyond_window), cf=len(cf), dmeta=len(dmeta),
+                disagree=[(len(c), rr) for f, c, rr in synth_disagree[:2]], variants=variants)
+
+
+def correspondence(ctx):
+    K = 1 if ctx.quick() else 10
+    parts = []
+    for k in range(K):
+        parts.append(frames_round(ctx, K))
+        if len(ctx.violations) >= 6:
+            break
+    ev = sum(p_["ev"] for p_ in parts)
+    variants = parts[0]["variants"]
+    per_variant = {v: sum(p_["per_variant"].get(v, 0) for p_ in parts) for v in variants}
+    valid_big = set()
+    for p_ in parts: valid_big |= p_["valid_big"]
+    for p_ in parts:
+        for n_, rr in p_["disagree"][:2]:
+            ctx.notes.append("synthesizer's own simulation differs from R on a frame R accepts (generator imprecision, not a finding): %d vs %s" % (n_, rr))
     # function-level tie of the decoding-table builders: FSE_buildDTable_wksp and ZSTD_buildFSETable (both BMI2 settings) against
     # FSE.buildCells / FSE.buildSeqTable on random distributions, biased to small accuracy logs with many "less than one" symbols
     import ent_fse
@@ -121,12 +140,13 @@ def correspondence(ctx):
         v["no_input"] = False
         v["replay"] = dict(v.get("replay") or {}, ent="fse")
     ev += fsr.get("evaluations", 0)
-    return dict(evaluations=ev, table_builder_tie=fsr, distinct_nontrivial=len({f for f, _ in valid if len(f) > 16}),
+    return dict(evaluations=ev, table_builder_tie=fsr, distinct_nontrivial=len(valid_big),
                 rule="valid frames = synthesized streams accepted by the reference Lean decoder + real compressor frames + dictionary frames; each decoded by %d build variants of the current tree "
                      "(default asm/BMI2, HUF X1 + short sequence decoder, HUF X2 + long/prefetch sequence decoder%s) through one-shot (exact and roomy dst), streaming under segmentations, buffer-less, stable-output, in-place, "
                      "and DDict cold / warm / buffer-less; distinct = distinct frames > 16 bytes" % (len(variants), ", no-asm, ASan" if not ctx.quick() else ""),
-                samples=[dict(op=ops[0][:80], reference=want[0])], variants=variants, agreeing_results_per_variant=per_variant,
-                synthesized_valid=len([1 for (f, c), rr in zip(cand, r) if rr.startswith("ok")]), synthesized_total=len(cand), synthesized_beyond_window_excluded=len(beyond_window), compressor_frames=len(cf), dictionary_frames=len(dmeta))
+                samples=[parts[0]["sample"]], variants=variants, agreeing_results_per_variant=per_variant,
+                synthesized_valid=sum(p_["synth_valid"] for p_ in parts), synthesized_total=sum(p_["synth_total"] for p_ in parts), synthesized_beyond_window_excluded=sum(p_["beyond"] for p_ in parts),
+                compressor_frames=sum(p_["cf"] for p_ in parts), dictionary_frames=sum(p_["dmeta"] for p_ in parts))
 
 
 def replay(ctx, data):
